@@ -9,6 +9,9 @@ PROP = {
   "saml2_tophat.sigver:SecurityContext.correctly_signed_response",
   "saml2_tophat.sigver:SecurityContext._check_signature"
  ],
+ "bounded": [
+  "sig_table"
+ ],
  "level": "other",
  "explanation": "The 'only if' half of C02 is a set of postconditions on the real Entity._parse_response (specialised to response_cls=AuthnResponse, service=assertion_consumer_service, the only way Saml2Client.parse_authn_request_response reaches it), proved for all inputs and all 8 option settings at once, over the verified contracts of loads/_loads/correctly_signed_response/verify/_assertion: a returned response has a response signature when want_response_signed, has every kept assertion signed when want_assertions_signed, has one or the other when want_assertions_or_response_signed, every signature that is present was verified (SIG_OK) whether required or not, and the temporarily forced requirements are restored. The retry logic (force-require, catch, retry) is executed symbolically with merged exceptional outcomes. AuthnResponse.parse_assertion is an ASSUMED contract (every kept assertion went through _assertion). The 'if' half (no spurious rejection of a response that meets the requirements) is not stated: every callee may raise for reasons outside this property (validity, audience, tool failure).",
  "not_decided": [
